@@ -308,6 +308,9 @@ def untrusted_value(kind, rng, alt=False):
 
     j = 1 if alt else 0
     r = rng.random()
+    if not alt and rng.random() < 0.12:
+        # present but empty (or blank): an untrusted kind all the same
+        return rng.choice(["", "", " ", "\t"])
     if kind == "x-forwarded-for":
         return [P.EVIL_ADDR, "203.0.113.67:6%d66" % j, '"203.0.113.66', ":80", "[2001:db8::66]"][int(r * 5)] if not alt else "203.0.113.68"
     if kind == "x-forwarded-host":
